@@ -64,6 +64,10 @@ SHAPES = [
      [zero(S("R")), {"$and": [{"$or": [S("SHL"), S("SHR")]}, {"mov": [S("BODY")]}]}, {S("M"): ["[^,| ]{1,1000}", S("BODY")]},
       {S("BODY"): {"times": 3}}]),
     ("no use of the defined macros", [SHIFT, ZERO], [S("X"), {S("M"): [S("O")]}], [S("X"), {S("M"): [S("O")]}]),
+    ("parameterised macro called with nested argument spelling", [ZERO], [{"@zero": {"reg": S("R1")}}, {"@zero": {"reg": S("R2")}}],
+     [zero(S("R1")), zero(S("R2"))]),
+    ("parameterised macro whose argument is a list value", [{"name": "@two", "args": ["ops"], "pattern": [{S("MM"): "ops"}]}],
+     [{"@two": {"ops": [S("A1"), S("A2")]}}, {"@two": {"ops": [S("A3")]}}], [{S("MM"): [S("A1"), S("A2")]}, {S("MM"): [S("A3")]}]),
 ]
 
 
@@ -123,6 +127,32 @@ def run(ctx) -> None:
                         tree.pairs[0][0].render().startswith("@")
                     ctx.check(ok, "C13.M3.arguments-from-call-node", "MacroExpander._resolve_local_macro",
                               f"arguments looked up in {tree!r}"[:120], "the argument values are looked up inside the call node only")
+    # thorough: every way of factoring one part of a base rule into a macro
+    if ctx.tier == "thorough":
+        from ..treegen import BASES, positions, replace_at
+        n = 0
+        for blabel, base in BASES:
+            for path, kind, val in positions(base):
+                if kind == "key":
+                    continue
+                if kind == "subtree":
+                    macro = {"name": "@f", "pattern": [val]}
+                else:
+                    macro = {"name": "@f", "pattern": val}
+                factored = replace_at(base, path, "@f")
+                for extra in ([], [{"name": "@unused", "pattern": "zzz"}]):
+                    def thunkf(I, macros=[macro] + extra, pattern=factored):
+                        o = I.construct(me, [], {}, None, None)
+                        return I.call_func(me.find_method("resolve_all_macros"), [], {
+                            "macros": lift_skeleton(I, macros), "pattern_tree": lift_skeleton(I, {"$and": pattern})}, o, None, None)
+                    want = lift_skeleton(I, {"$and": base})
+                    for p in I.explore(thunkf):
+                        n += 1
+                        ok = p.kind == "return" and same_tree(p.value, want)
+                        ctx.check(ok, "C13.M8.factoring-equals-original", f"resolve_all_macros[{blabel}: {kind} at {path}]"[:120],
+                                  (repr(p.value) if p.kind == "return" else repr(p.exc))[:200],
+                                  "factoring any single item, value or subtree of a rule into a macro and expanding gives the rule back")
+        ctx.extra["factorings"] = n
     # M9: the rule with macros compiles to the same regex as the inlined rule (all 4 flag settings)
     def compiled(doc):
         def thunk(I):
